@@ -125,7 +125,8 @@ def check_case(case):
             return None
         has_fva = case["fva"] != "none"
         # ---- model summary -------------------------------------------------------------------------------
-        boundary = sorted([r for r in m.boundary], key=lambda r: r.id)
+        # (the boundary reactions by the documented rule — exactly one metabolite — not by the library's own `Reaction.boundary`)
+        boundary = sorted([r for r in m.reactions if len(r.metabolites) == 1], key=lambda r: r.id)
         rg = ranges_for([r.id for r in boundary]) if has_fva and boundary else None
         rows = []
         for r in boundary:
@@ -237,6 +238,21 @@ def gen_case(rng):
         case["ranges"] = rg
     if case["fva"] == "float" and case["solution"] == "given":
         case["fva"] = "frame" if "ranges" in case else "none"
+    import zlib
+    h = zlib.crc32(json.dumps(spec, sort_keys=True).encode())
+    mets = sorted({x for r in spec["rxns"] for x in r["st"]})
+    if case["solution"] == "given" and h % 3 == 0 and len(mets) >= 2:
+        # a one-sided reaction with two metabolites (a lumped feed `--> a + b`) and an empty reaction: neither is a boundary reaction, neither
+        # belongs in the model summary (decided from the content of the case, no draw from the case stream)
+        spec["rxns"].append({"id": "COFEED", "st": {mets[0]: "1", mets[1]: "2"}, "lb": "0", "ub": "5", "rule": ""})
+        case["fluxes"]["COFEED"] = "1"
+        if "ranges" in case:
+            case["ranges"]["COFEED"] = ("0", "2")
+        if (h // 3) % 2 == 0:
+            spec["rxns"].append({"id": "AAA_EMPTY", "st": {}, "lb": "0", "ub": "5", "rule": ""})
+            case["fluxes"]["AAA_EMPTY"] = "0"
+            if "ranges" in case:
+                case["ranges"]["AAA_EMPTY"] = ("0", "0")
     return case
 
 
